@@ -36,6 +36,7 @@ func runC06(c *an.Ctx) {
 	ruleF7(c)
 	ruleF8(c)
 	ruleF9(c)
+	ruleF10(c)
 }
 
 func existsCallOf(p *an.Prog, v ssa.Value, file string) bool {
